@@ -91,7 +91,7 @@ package sm4
 //@   (fresh-field (payload result.0 "*sm4.Sm4Cipher") block1)
 //@   (fresh-field (payload result.0 "*sm4.Sm4Cipher") block2))
 
-//@ (func "(*Sm4Cipher).BlockSize" (ensures sixteen (= result 16)))
+//@ (func "(*Sm4Cipher).BlockSize" (returns result 16))
 
 //@ (func "(*Sm4Cipher).Encrypt"
 //@   (uses "sm4")
